@@ -97,6 +97,10 @@ def _one_case(obs, rng, conv, kw, spec, mode, work):
         obs.cls('source:' + source)
         obs.cls('history:' + history)
         spec.update(geometry=gcls, wkt=g.wkt[:300], buffer=b)
+        bkw = {'buffer': b}
+        if b == 0 and rng.random() < 0.5:
+            bkw = {}                    # the documented default: no buffer
+            obs.cls('buffer-argument-omitted')
         edge_rows = None
         if conv == 'ugrid' and model.has_edges and 'face_edge' not in model.encoding['supplied']:
             edge_rows = obs.call('edge_node_array', lambda: rows_of(ems.topology.edge_node_array))
@@ -108,11 +112,11 @@ def _one_case(obs, rng, conv, kw, spec, mode, work):
         src_ds = ds
         with quiet_warnings():
             if history == 'direct':
-                out = obs.call('clip', ems.clip, g, cdir, buffer=b, mech=classify_exception)
+                out = obs.call('clip', ems.clip, g, cdir, mech=classify_exception, **bkw)
             elif history == 'mask-reused':
                 # one mask object, applied first to this dataset and then to a twin with the same geometry: applying a mask
                 # must not use it up
-                mask = obs.call('make_clip_mask', ems.make_clip_mask, g, buffer=b)
+                mask = obs.call('make_clip_mask', ems.make_clip_mask, g, **bkw)
                 if isinstance(mask, Failed):
                     continue
                 first = obs.call('apply_clip_mask (first use of the mask)', ems.apply_clip_mask, mask, cdir, mech=classify_exception)
@@ -133,7 +137,7 @@ def _one_case(obs, rng, conv, kw, spec, mode, work):
                 target_model = oracle.twin_with_new_values(model)
                 ds_b = materialise(target_model, 'b')
                 src_ds = ds_b
-                mask = obs.call('make_clip_mask', ems.make_clip_mask, g, buffer=b)
+                mask = obs.call('make_clip_mask', ems.make_clip_mask, g, **bkw)
                 if isinstance(mask, Failed):
                     continue
                 mpath = os.path.join(cdir, 'mask_saved.nc')
